@@ -135,10 +135,10 @@ class SymDag:
         if M.symbolic:
             self.E = {k: core.zbool(b) for k, b in self.Eb.items()}
             rk = [z3.Int(f"rk{i}") for i in V]
-            for i in V:
-                M.assume(z3.And(rk[i] >= 0, rk[i] < n), None)
-            for (i, j), e in self.E.items():
-                M.assume(z3.Implies(e, rk[i] < rk[j]), None)
+            self.acyclic = [z3.And(rk[i] >= 0, rk[i] < n) for i in V] + [z3.Implies(e, rk[i] < rk[j]) for (i, j), e in self.E.items()]
+            self.restricted = desc is not None and desc.get("base_edges") is not None
+            for c in self.acyclic:
+                M.assume(c, None)
             core.CTX.assumptions.append("ground truth is an acyclic directed graph (rank function)")
             if desc is not None and desc.get("max_degree") is not None:
                 m = desc["max_degree"]
@@ -275,7 +275,17 @@ def run_lazy(desc, M):
             M.check(core.SymBool(G.E[d]), "every directed edge is present in every consistent DAG (no spurious orientation)", detail=str(d))
         for (i, j) in und:
             for e in ((i, j), (j, i)):
-                st, _ = core.ENG._check([G.E[e]], 20000)
+                if getattr(G, "restricted", False):
+                    # the scenario restricts the ground truth to a family of graphs (fixed dense part): "reversible" is a statement about the whole
+                    # Markov equivalence class, so the witness may be ANY acyclic graph with the same CI answers, not only one of the family
+                    s_ = z3.Solver()
+                    s_.set("timeout", 20000)
+                    s_.add(*G.acyclic)
+                    s_.add(*core.ENG.pc)
+                    s_.add(G.E[e])
+                    st = str(s_.check())
+                else:
+                    st, _ = core.ENG._check([G.E[e]], 20000)
                 M.n_obl += 1
                 M.n_solver += 1
                 if st == "unsat":
